@@ -339,11 +339,21 @@ func (h *SexpHash) TypeCheckField(key Sexp, val Sexp) error {
 				if len(a.Val) == 0 {
 					return nil // okay
 				}
+				// a non-empty array whose first element has no
+				// type (e.g. [nil 1]) has no type either; falling
+				// through dereferenced the nil type below.
+				return fmt.Errorf("%v has nil Type", val.SexpString(nil))
 			case *SexpSentinel:
 				return nil // okay
 			default:
 				return fmt.Errorf("%v has nil Type", val.SexpString(nil))
 			}
+		}
+		if _, isTypeValue := val.(*RegisteredType); isTypeValue {
+			// a type is its own Type(), so the type int64 itself would
+			// pass for a value of type int64.
+			return fmt.Errorf("field %v.%v is %v, cannot assign the type %v itself",
+				p.UserStructDefn.Name, k, declaredTyp.SexpString(nil), val.SexpString(nil))
 		}
 
 		//Q("obsTyp is %T / val = %#v", obsTyp, obsTyp)
